@@ -45,6 +45,10 @@ type Opts struct {
 	FloatNormal bool
 	ConcFloats  bool // doubles from the concrete boundary set concFloats (keys become concrete)
 	OneFloat    bool // with ConcFloats: only the value 0
+	// ElemConc: doubles INSIDE containers come from the concrete set. A container key embeds the element
+	// encodings as an escaped string, so every symbolic byte of an embedded double forks three ways
+	// (0x00 / 0xff / other) in orderedcode.appendString: 3^9 paths per symbolic double element.
+	ElemConc bool
 }
 
 var concFloats = []float64{-1.5, 0, 2.5}
@@ -128,6 +132,7 @@ func Value(name string, o Opts) interface{} {
 		n := nd.Choice(name+".n", o.MaxElems+1)
 		eo := o
 		eo.Kinds = o.ElemKinds
+		eo.ConcFloats = o.ConcFloats || o.ElemConc
 		a := make([]interface{}, n)
 		for i := 0; i < n; i++ {
 			a[i] = Value(name+".e", eo)
@@ -136,6 +141,7 @@ func Value(name string, o Opts) interface{} {
 	case KObject:
 		eo := o
 		eo.Kinds = o.ElemKinds
+		eo.ConcFloats = o.ConcFloats || o.ElemConc
 		m := map[string]interface{}{}
 		// every subset of objKeys of size <= MaxElems
 		cnt := 0
